@@ -426,6 +426,10 @@ def gen_fleet_world(rng: random.Random, n_steps: int, variant: Optional[str] = N
         # several vehicles reach the charging threshold in the same step
         fl["fa"]["stations"] = [s_["id"] for s_ in stations]
         fl["fb"]["stations"] = []
+        if rng.random() < 0.5:
+            # ... or each fleet has the stations of one cell to itself
+            fl["fa"]["stations"] = ["s1", "bs1"]
+            fl["fb"]["stations"] = ["s2", "bs2"]
     for k in range(rng.randint(6, 14)):
         o, d = cells[rng.randrange(2)], cells[rng.randrange(2)]
         requests.append({"id": f"r{k+1:02d}", "o": o, "d": d, "dep": rng.randrange(0, dt * n_steps * 3 // 4), "pax": 1,
@@ -650,6 +654,8 @@ def gen_shift_world(rng: random.Random, n_steps: int, dt: Optional[int] = None) 
         for r in requests:
             r["fleet"] = "fa"
         w["dispatcher"] = dict(w.get("dispatcher") or {}, valid_dispatch_states=["idle", "repositioning", "reservebase", "chargingbase"])
+        # some human drivers work on their own account: not in the fleet, their only membership is that of their home base
+        w["fleets"]["fa"]["vehicles"] = [v["id"] for v in vehicles if not (v.get("home_base") and rng.random() < 0.3)]
     return w
 
 
